@@ -16,7 +16,7 @@ cd $WT
 if ! git apply --check $S/patch.diff; then echo '{"applies": false}' > $S/confirm.json; exit 1; fi
 git apply $S/patch.diff
 cargo test --offline $FEAT --test $DN > $S/demo_with.log 2>&1; DW=$?
-/tmp/wt/run_suite.sh $WT > $S/suite.log 2>&1; SU=$?
+/verif/tools/run_suite.sh $WT > $S/suite.log 2>&1; SU=$?
 git apply -R $S/patch.diff
 cargo test --offline $FEAT --test $DN > $S/demo_without.log 2>&1; DO=$?
 rm -f $WT/tests/$DN.rs
